@@ -24,11 +24,14 @@ type caller struct {
 }
 
 type fnCall struct {
-	n        int
-	entered  int
-	returned int // 0 while active
-	val      int
-	err      error
+	n int
+	// cancelledAtReturn: the context the function was given (the initiating
+	// caller's) was already cancelled when the function returned
+	cancelledAtReturn bool
+	entered           int
+	returned          int // 0 while active
+	val               int
+	err               error
 }
 
 type world struct {
@@ -55,11 +58,12 @@ func (w *world) fn(ctx context.Context) (int, error) {
 	defer func() {
 		w.active--
 		fc.returned = c.Tick()
+		fc.cancelledAtReturn = ctx.Err() != nil
 		if fc.err == nil {
 			w.success = fc
 		}
 	}()
-	beh := c.S.Plan(8)
+	beh := c.S.Plan(9)
 	c.Descf("fn call %d: behaviour %d", fc.n, beh)
 	switch beh {
 	case 0, 1: // immediate success
@@ -77,6 +81,21 @@ func (w *world) fn(ctx context.Context) (int, error) {
 			c.S.Count("probe:fn-saw-cancel")
 			core.YieldN("oncex.fn-late", c.S.Plan(4))
 			fc.err = ctx.Err()
+			return 0, fc.err
+		}
+		fc.val = 1000 + fc.n
+		return fc.val, nil
+	case 8: // on cancellation returns an error that wraps the context's error (or a plain deadline-style error)
+		g := make(chan struct{})
+		w.gates = append(w.gates, g)
+		if simrt.Select("oncex.fn-wait", simrt.Recv(ctx.Done()), simrt.Recv(g)) == 0 {
+			c.S.Count("probe:fn-saw-cancel")
+			core.YieldN("oncex.fn-late", c.S.Plan(4))
+			if c.S.PlanP(500) {
+				fc.err = fmt.Errorf("fn-aborted-%d: %w", fc.n, ctx.Err())
+			} else {
+				fc.err = context.DeadlineExceeded
+			}
 			return 0, fc.err
 		}
 		fc.val = 1000 + fc.n
@@ -139,16 +158,24 @@ func (w *world) runCaller(x *caller) {
 	case err == context.Canceled && x.cancelReq != 0:
 		// own cancellation
 	default:
-		if err == context.Canceled {
-			// may also be the error some function call returned (ctx.Err() of the initiator)
-		}
+		// a caller with a live context: the error must be one the function itself
+		// returned, from a call whose (initiating caller's) context was still live
+		// when it returned - a failure caused by the initiator's cancellation is the
+		// initiator's business and must make the other callers try again
 		ok := false
+		leaked := false
 		for _, fc := range w.calls {
-			if fc.returned != 0 && fc.returned <= ret && fc.err != nil && (fc.err == err || (errors.Is(fc.err, context.Canceled) && err == context.Canceled)) {
-				ok = true
+			if fc.returned != 0 && fc.returned <= ret && fc.err != nil && fc.err == err {
+				if fc.cancelledAtReturn && x.cancelReq == 0 {
+					leaked = true
+				} else {
+					ok = true
+				}
 			}
 		}
-		if !ok {
+		if !ok && leaked {
+			c.Fail("C16.O6.initiator-cancellation-leaked", "Resolve (caller %d, own context live) returned %v, the error of a function call whose initiating caller's context had been cancelled: the initiator's cancellation prevented this caller from obtaining a result", x.id, err)
+		} else if !ok {
 			c.Fail("C16.O4.error-from-nowhere", "Resolve (caller %d, context live=%v) returned error %v which no call of the function returned before", x.id, x.cancelReq == 0, err)
 		}
 		if successBefore != nil && x.cancelReq == 0 {
